@@ -58,7 +58,16 @@ def emit (ms : List Mod) : List Mod := emitPushed (pushAll ms)
 structure Var where
   name : Nat
   copyable : Bool
+  /-- the `InputFlags.Inout` flag as stored on the captured variable by the checker -/
+  inout : Bool := false
   deriving DecidableEq, Repr
+
+/-- `_set_inout_if_non_copyable` (checker/modifier_checker.py), applied to every captured
+    variable by `check_modified_block` -/
+def setInout (v : Var) : Var := { v with inout := !v.copyable }
+
+/-- the `captured` mapping of the `CheckedModifiedBlock`, in the checker's order -/
+def capture (vs : List Var) : List Var := vs.map setInout
 
 /-- `non_copyable_front_others_back` -/
 def order (vs : List Var) : List Var := vs.filter (fun v => !v.copyable) ++ vs.filter (·.copyable)
@@ -85,16 +94,18 @@ def callArgsOld (controls : List (Nat × Nat)) (captured : List Var) : List Slot
   controls.map (fun c => Slot.ctrl c.1 c.2) ++ (order captured).map Slot.cap
 
 /-- Outputs of the function value: the control arrays (same positions as in the inputs), then
-    the in-out (non-copyable) captured variables. -/
+    the inputs that `check_modified_block_signature` declares in-out — it decides by the *type*:
+    `InputFlags.Inout if not t.copyable`. -/
 def fnOutputs (controls : List (Nat × Nat)) (captured : List Var) : List Slot :=
   controls.foldl (fun acc c => Slot.ctrl c.1 c.2 :: acc)
     (((order captured).filter (fun v => !v.copyable)).map Slot.cap)
 
 /-- Where `compile_modified_block` stores the outputs of the call, in output order: the
     places of the controls (repaired code: last control first), then every captured variable
-    with the `Inout` flag. -/
+    whose stored *flag* says in-out (`if InputFlags.Inout in arg.flags`) — a different site from
+    the signature's type test; they agree only because `setInout` sets the flag from copyability. -/
 def handBack (controls : List (Nat × Nat)) (captured : List Var) : List Slot :=
   controls.reverse.map (fun c => Slot.ctrl c.1 c.2) ++
-    ((order captured).filter (fun v => !v.copyable)).map Slot.cap
+    ((order captured).filter (·.inout)).map Slot.cap
 
 end GuppyVerif.Modifier
